@@ -85,15 +85,19 @@ class GroupLinearProx(SxContract):
     entries restored to their positions, for the given partition."""
     fn = "gemclus.sparse._prox_grad.group_linear_prox_grad"
 
-    def __init__(self, d, h, groups):
-        self.d, self.h, self.groups = d, h, [list(g) for g in groups]
-        self.label = f"group_linear_prox_grad[d={d},h={h},groups={self.groups}]"
+    def __init__(self, d, h, groups, zero_group=None):
+        self.d, self.h, self.groups, self.zero_group = d, h, [list(g) for g in groups], zero_group
+        self.label = f"group_linear_prox_grad[d={d},h={h},groups={self.groups}" + (f",zero group {zero_group}]" if zero_group is not None else "]")
 
     def patches(self):
         return np_patches(PG)
 
     def build(self, ctx):
-        return {"W": sx.sym_array(ctx, "w", (self.d, self.h), lo=-2, hi=2), "alpha": ctx.var("alpha", "+", lo=0.05, hi=2.5)}
+        W = sx.sym_array(ctx, "w", (self.d, self.h), lo=-2, hi=2)
+        if self.zero_group is not None:
+            for f in self.groups[self.zero_group]:
+                W[f, :] = sx.Sx(dag.ZERO)        # a group whose weights are all exactly zero (e.g. constant columns)
+        return {"W": W, "alpha": ctx.var("alpha", "+", lo=0.05, hi=2.5)}
 
     def body(self, inp):
         Z = PG.group_linear_prox_grad(self.groups, inp["W"].copy(), inp["alpha"])
